@@ -416,9 +416,11 @@ def check_C08(tier, seed):
         raise ModelError("vacuity witness failed: the unrepaired scanner model should violate P_C08_Clean")
     v.notes.append("vacuity witness: the model of the pinned (unrepaired) scanner violates P_C08_Clean, as expected")
     # token level: a rejected parse (bad value / range check, bad token, failing callback) followed by another parse
-    res = tlc_parse(v, "C01_two_parses.cfg", INV_PARSE)
-    res.behaviours = [b for b in res.behaviours if len(b["parses"]) == 2]
-    parsecheck.replay(v, exe, res, aspects={"diag", "balance"}, seed=seed, renderings=("canonical",), tag="C08p")
+    # (two_dep: deprecated options - the second text gets its own notices, whatever the first one did)
+    for c in ("C01_two_parses.cfg", "two_dep.cfg"):
+        res = tlc_parse(v, c, INV_PARSE)
+        res.behaviours = [b for b in res.behaviours if len(b["parses"]) == 2]
+        parsecheck.replay(v, exe, res, aspects={"tree", "diag", "balance"}, seed=seed, renderings=("canonical",), tag="C08p")
     v.cov["exhaustive"] = True
     return v.finish(rule="every history up to the bound over {accepted parse, parse aborted inside a double-quoted string / a single-quoted "
                          "string / a comment / on a bad escape / inside an included file / by the include depth limit, accepted include, free + "
